@@ -855,7 +855,7 @@ fn main() {
     }
     let seed: u64 = std::env::var("VERIF_SEED").ok().and_then(|s| s.parse::<i64>().ok()).map(|x| x as u64).unwrap_or(1);
     let scale: f64 = std::env::var("VERIF_SCALE").ok().and_then(|s| s.parse().ok()).unwrap_or(1.0);
-    let cases = ((if mode == "thorough" { 400_000.0 } else { 20_000.0 }) * scale) as u32;
+    let cases = ((if mode == "thorough" { 400_000.0 } else { 60_000.0 }) * scale) as u32;
     let t0 = Instant::now();
     let results: Vec<(u64, HashSet<u64>, Stats, Vec<Case>, Option<(Case, String)>)> = std::thread::scope(|sc| {
         let hs: Vec<_> = (0..16usize)
